@@ -93,7 +93,14 @@ def correct_checksum(readout: bytes) -> int:
 
 
 def noise(rng, n: int, flavour: str | None = None) -> tuple[bytes, str]:
-    flavour = flavour or rng.choice(("random", "struct", "ident_like", "ascii", "high", "bang_tail", "bang_in_ident", "binary_hdlc", "idle_line", "idle_line"))
+    flavour = flavour or rng.choice(("random", "struct", "ident_like", "ascii", "high", "bang_tail", "bang_in_ident", "binary_hdlc", "idle_line", "idle_line", "truncated_readout_then_short_lines"))
+    if flavour == "truncated_readout_then_short_lines":
+        # a readout that never gets its end line, followed by hundreds of very short lines (line-end chatter) in well under 8 KiB
+        ident, _, _ = p1_ref.strict_ident(rng)
+        k = rng.choice((300, 520, 600, 1000, 2000))
+        short = rng.choice((b"\r\n", b"\n", b"x\n", b"\r\n\n", b"0\r\n"))
+        out = ident + b"\r\n1-0:1.8.0(000001.000*kWh)\r\n" + short * min(k, 8000 // len(short))
+        return out, flavour
     if flavour == "idle_line":
         # what a serial line carries between two messages: break / idle characters (NUL, 0xFF), flow control, stray line ends
         def gap():
